@@ -5240,9 +5240,11 @@ class FlowIRConcrete(object):
 
             for name in this_stage_vars:
                 try:
+                    # VV: A stage variable that cannot be fully resolved here (e.g. it references `replica`) must
+                    # stay untouched for the primitive instance too; otherwise the stored instance resolves the
+                    # remaining references at stage scope while the replicated FlowIR resolves them at component scope
                     this_stage_vars[name] = FlowIR.interpolate(
                         this_stage_vars[name], context, label='variables.default.stages.%d.%s' % (stage_index, name),
-                        is_primitive=is_primitive
                     )
                 except experiment.model.errors.FlowIRVariableUnknown as e:
                     flowirLogger.warning('While interpolating stage index variables: %s' % e.message)
